@@ -106,6 +106,12 @@ def install_manual_hints():
         'exclude': ['Count(', 'Join(', 'ParseOpts', 'dmap', 'ddom', 'elem!',
                     'SplitHead', 'SplitTail', 'sk_'],
     }
+    # not_blank needs only: the line = stripped core in whitespace, the core
+    # is non-empty, the line = header + its newline (cvc5: 0.1 s)
+    symex.MANUAL_HINTS[NAME + '#raises.DiffXParseError.not_blank'] = {
+        'include': ['strip!', 'pre!', 'suf!', 'SuffixOf('],
+        'exclude': ['pos!', 'str.substr', 'elem!', 'g4!', 'Loop(', 'lws!'],
+    }
     symex.MANUAL_HINTS[NAME + '#raises.DiffXParseError.internal'] = {
         'include': ['elem!', 'SplitHead', 'SplitTail', 'k!', 'InRe(pre!'],
         'exclude': ['Contains(g4', 'Contains(At_', 'wj!', 'Count(', 'Join(',
@@ -309,6 +315,12 @@ def register(engine, strict=True):
     engine.spec_funcs['NAMES_RE'] = VConc(NAME_RE)
     engine.spec_funcs['OPTS'] = VConc(OPTS)
     engine.spec_funcs['HDR'] = VConc(HDR)
+    from pyvc import models as _M
+    engine.spec_funcs['BLANK'] = VConc(z3.Star(_M.RE_WS))
+    # C03 / C11: a blank line (whitespace only) is skipped, never reported
+    # as a malformed header
+    c.internal_raises_extra.append(
+        (DiffXParseError, 'not_blank', 'not in_re(header, BLANK)'))
     engine.spec_funcs['PAIR'] = VConc(PAIR)
     engine.add(c)
     return c
